@@ -208,7 +208,7 @@ class C13(Sim):
         if sp.get("flags", {}).get("identity_chain") and k == 1 and rng.random() < 0.6:
             return {"op": "inputs", "e": e, "rows": [S.draw_row(rng, sp, 0.05)], "setter": "np0d"}
         return {"op": "inputs", "e": e, "rows": [S.draw_row(rng, sp, rng.choice([0.05, 0.2, 0.4])) for _ in range(k)],
-                "setter": rng.choice(["vars", "vars", "matrix", "np0d", "npfloat"])}
+                "setter": rng.choice(["vars", "vars", "matrix", "np0d", "npfloat", "pyint"])}
 
     def _crash_cases(self, rng, sp, vector_ok, tier) -> Iterator[dict]:
         pre = [self._inputs(rng, sp, 0, vector_ok), {"op": "process", "e": 0}]
